@@ -116,3 +116,55 @@ def random_valid_id(rng, rmin=-1, rmax=MAXV):
     if r == 1:
         return ref_id(rng.randrange(60), 0, 1)
     return ref_id(rng.randrange(60), rng.randrange(4 ** (r - 1)), r)
+
+# ------------------------------------------------------------------------------------------
+# coverage as sets of finest-level (resolution 29) cells, represented by index intervals in hierarchical order
+P28 = 4 ** 28
+
+def span(n):
+    top6, S, r = ref_decode(n)
+    if r == -1:
+        return (0, 60 * P28)
+    if r == 0:
+        return (5 * top6 * P28, 5 * (top6 + 1) * P28)
+    w = 4 ** (29 - r)
+    lo = top6 * P28 + S * w
+    return (lo, lo + w)
+
+def union_spans(cells):
+    iv = sorted(span(c) for c in cells)
+    out = []
+    for lo, hi in iv:
+        if out and lo <= out[-1][1]:
+            if hi > out[-1][1]:
+                out[-1][1] = hi
+        else:
+            out.append([lo, hi])
+    return [tuple(x) for x in out]
+
+def ref_compact_set(cells):
+    """set-based reference compaction of an antichain (duplicates allowed): repeatedly replace complete sibling groups"""
+    s = set(cells)
+    changed = True
+    while changed:
+        changed = False
+        byp = {}
+        for c in s:
+            r = ref_res(c)
+            if r < 0:
+                continue
+            byp.setdefault(ref_parent(c, r - 1), []).append(c)
+        for p, ch in byp.items():
+            need = 12 if ref_res(p) == -1 else (5 if ref_res(p) == 0 else 4)
+            if len(ch) == need:
+                s -= set(ch); s.add(p); changed = True
+    return s
+
+def is_antichain(cells):
+    s = set(cells)
+    for c in s:
+        r = ref_res(c)
+        for a in range(-1, r):
+            if ref_parent(c, a) in s:
+                return False
+    return True
